@@ -31,13 +31,35 @@ TRUSTED_BASE = [
     "uuid.UUID(int=n) raises ValueError exactly when not 0 <= n < 2**128 (CPython Lib/uuid.py), uuid.UUID(str) "
     "is an oracle value passed to the model for uuid_from_str and assumed to reject every string shorter than 32 characters",
     "gen/C20_Consts.v: _ALPHABET, _SHORT_GUID_LEN and the exception classes caught around the decoder are read from ak/short_uuid.py by harness/props/c20.py:gen_consts (ast, fail-closed)",
+    "the translator harness/props/c20_translate.py (Python ast -> Gallina, ~1000 lines, NOT verified; self test "
+    "`python -m harness.props.c20_translate --selftest` compares 1470 calls of 13 translated functions with CPython) and "
+    "coq/C20/PyLib.v, which gives each Python construct its meaning (int=Z, str=list of code points, floor // and %, negative "
+    "indices and clamped slices, IndexError/KeyError/ValueError/TypeError of [] / dict[] / .index / .rjust, dict = association list "
+    "where a later key wins, short-circuit and/or, try/except as a match on the res monad, while = Fixpoint on fuel with Err Hang). "
+    "Supported subset (anything else raises = proof step broken): module level = docstring, `import uuid`, NAME = pure expression, "
+    "plain defs (no decorators/defaults/*args/nested defs/recursion/global); statements = assignment to names or tuples of names, "
+    "augmented assignment on int/str, if/elif/else, pass, assert, return <expr>, raise Class(...) [from name], bare raise, "
+    "try/except Class|(Classes) [as name] without else/finally, while and for (over str, list, reversed, enumerate, range, zip) "
+    "without else/break/continue/return inside; expressions = int/str/bool literals, names, + - * // % divmod unary-, ** and << by "
+    "a literal, str + / * , comparisons, in / not in, and/or/not, conditional expression, len, isinstance(x, str|int), seq[i], "
+    "[a:b], [::-1], dict[k], list.index, str.rjust/ljust/strip/lstrip/rstrip/join, list(), dict(), one-`for` comprehensions, calls "
+    "of the module's own functions, uuid.UUID(int=e), uuid.UUID(str), .int; exception classes ValueError KeyError IndexError "
+    "TypeError AssertionError AttributeError (+ LookupError, Exception in except clauses)",
+    "the standard library enters the translated functions as the record uuid_lib (coq/C20/PyLib.v) and the theorems instantiate it "
+    "with coq/C20/TransInst.v:mk_lib = the same contracts the hand model assumes: a UUID object is its 128-bit integer (u.int), "
+    "uuid.UUID(int=n) returns it or raises ValueError exactly when not 0 <= n < 2**128, uuid.UUID(str) answers as the recorded "
+    "oracle value for the string of the call (of_str_oracle) and is unknown (OtherErr) for any other string",
+    "parameter types of the API functions declared in c20_translate.ENTRY: uuid_from_short_str(any object: a str or something that is "
+    "not a str), uuid_to_short_str(uuid.UUID), uuid_from_str(str); the helpers' types are inferred from their call sites",
     "the model of a call sequence is the single-call model applied to each call (eval_seq = map eval_call): that ak/short_uuid.py "
-    "keeps no state between calls is NOT proved from the source, it is checked by running the generated call sequences "
+    "keeps no state between calls is NOT proved about the hand model, it is checked by running the generated call sequences "
     "(and every call alone) against the implementation; importlib.reload(ak.short_uuid) is taken to restore the state "
-    "the module has right after import (state kept outside that module would survive it)",
+    "the module has right after import (state kept outside that module would survive it).  (For a source the translator accepts "
+    "it also follows from the subset, which has no construct that writes module-level or shared state.)",
 ]
 ASSUMPTIONS = ["arguments of uuid_to_short_str are uuid.UUID objects (0 <= int < 2**128)"]
-MODELLED = "ak/short_uuid.py completely (uuid.UUID itself is trusted)"
+MODELLED = ("ak/short_uuid.py completely, twice: hand-written Gallina model (coq/C20/Model.v) and the machine translation of the "
+            "current source (coq/gen/C20_Translated.v), proved equal (coq/C20/TransEq.v); uuid.UUID itself is trusted")
 
 ALPHA57 = "23456789ABCDEFGHJKLMNPQRSTUVWXYZabcdefghijkmnopqrstuvwxyz"
 
@@ -105,6 +127,12 @@ def gen_consts(repo):
     try:
         translated = c20_translate.translate(src)
     except c20_translate.Unsupported as e:
+        # leave a defined state behind (not the translation of whatever text the previous run saw): the constants of
+        # THIS source and a stub translation that fails TransEq.translation_is_available; then report the break
+        from harness.lib import coqrun
+        with coqrun.Lock():
+            coqrun.write_gen("C20_Consts", text)
+            coqrun.write_gen("C20_Translated", c20_translate.stub(str(e)))
         raise ExtractError(f"translator (harness/props/c20_translate.py): {e}")
     return {"C20_Consts": text, "C20_Translated": translated}
 
@@ -678,17 +706,32 @@ def outcome(case, obs):
     return case["k"] + ":" + (r[0] if r[0] == "ok" else r[1])
 
 
-TECHNIQUE = "Coq proof (induction over digit lists / fuel) on a hand-written Gallina model + per-run correspondence check (vm_compute vs implementation) + constants regenerated from the source"
+TECHNIQUE = ("Coq proof (induction over digit lists / fuel) on a hand-written Gallina model + the source translated to Gallina on "
+             "every run by a fail-closed Python-ast translator and PROVED extensionally equal to the hand model (so the property "
+             "theorems are re-checked against the current text of the code) + per-run correspondence check (vm_compute of hand "
+             "model AND translated functions vs implementation) + constants regenerated from the source")
 LEVEL_TEXT = ("Full: roundtrip, shape, injective, accept_iff, surjective_on_valid, reject_value_error, from_str_both are "
               "proved in Coq for ALL 2^128 uuids and ALL strings (unbounded lists of code points) about the model of "
               "ak/short_uuid.py; calls_independent, seq_decode_exact, seq_decode_injective, seq_encode_decode lift them to "
               "arbitrary histories of calls (the model keeps no state, so these are corollaries; their content for the code "
               "lies in the correspondence on call sequences); alphabet, length and the caught exception classes are re-read "
               "from the source on every run, so NoDup alphabet, 2^128 <= 57^22 and 'KeyError is translated' are re-proved "
-              "against the current code; the model is compared with the implementation on ~2300 boundary/exhaustive-per-digit "
-              "single calls and ~1300 call sequences (~7000 calls) per run.  Tested only (correspondence + oracle, not proved "
-              "from the source): that the implementation's answer to a call does not depend on earlier calls.")
-LEVEL_NOTE = ("Trusted: Coq kernel + vm_compute; the hand model's fidelity (checked by correspondence, not proved); "
-              "uuid.UUID(int=)/uuid.UUID(str) of the standard library; the ast extractor and harness. "
-              "Print Assumptions: closed under the global context for every theorem.")
+              "against the current code.  Tie to the code, second kind: on every run harness/props/c20_translate.py translates the "
+              "whole current ak/short_uuid.py into coq/gen/C20_Translated.v and coq/C20/TransEq.v proves, for all inputs, "
+              "translated_str_to_int_eq, translated_int_to_str_eq (fuel >= log2 n + 2), translated_to_short_eq, "
+              "translated_from_short_eq, translated_from_str_eq, translated_seq_eq (translated function = hand model) and hence "
+              "roundtrip_translated, shape_translated, injective_translated, accept_iff_translated, surjective_on_valid_translated, "
+              "reject_value_error_translated, from_str_both_translated (coq/C20/PropsTranslated.v, fuel >= 130): an edit of the "
+              "source that changes behaviour breaks one of these proof obligations (or leaves the translator's subset, which is "
+              "reported as a broken proof step too), not only the correspondence.  The model AND the translated functions are compared "
+              "with the implementation on ~2300 boundary/exhaustive-per-digit single calls and ~1300 call sequences (~7000 calls) "
+              "per run.  Tested only (correspondence + oracle, not proved about the hand model): that the implementation's answer to "
+              "a call does not depend on earlier calls.  Price: a behaviour-preserving rewrite of the source that the equivalence "
+              "proof does not survive (e.g. a structurally different loop) is reported as a broken obligation with no failing input.")
+LEVEL_NOTE = ("Trusted: Coq kernel + vm_compute; the translator c20_translate.py and the Python semantics written down in "
+              "coq/C20/PyLib.v (self-tested against CPython, not verified); the hand model's fidelity is no longer trusted for the "
+              "source the translator accepts (it is proved equal to the translation), only the translator's; "
+              "uuid.UUID(int=)/uuid.UUID(str)/.int of the standard library (record uuid_lib, instantiated by TransInst.mk_lib); "
+              "the declared parameter types of the three API functions; the ast extractor and harness. "
+              "Print Assumptions: closed under the global context for every theorem (29 statements; coqchk clean in the thorough tier).")
 DESIGN_REF = "DESIGN.md section 8, C20"
